@@ -2,7 +2,7 @@
    Property theorems only; the model is Bac.Net (no proofs), the proofs live in Bac.NetFacts.
    Local theorems hold for EVERY node state, adapter, and arriving frame of the model.  `Fwd` marks the copies made
    by the forwarding section of process_npdu (netservice.py:607-676), `Tx` every other frame a node emits. *)
-From Bac Require Import Base Net NetFacts.
+From Bac Require Import Base Net NetFacts NetTerm.
 Open Scope N_scope.
 
 (* each router hop lowers the hop count by exactly one, and keeps payload and message type *)
@@ -140,6 +140,19 @@ Proof.
 Qed.
 Print Assumptions C06_forwarding_terminates_partial.
 
+(* forwarding of global broadcasts terminates on EVERY topology — cycles, wrong caches, any node state: whenever
+   all frames in flight are application-layer global broadcasts the internetwork reaches quiescence
+   (measure: sum over the frames in flight of K^hop, K = 1 + max LAN size * (1 + max adapters)) *)
+Theorem C06_global_broadcast_terminates : forall w,
+  Forall gb_frame (queue w) -> exists k, queue (run k w) = [].
+Proof. exact global_broadcast_terminates. Qed.
+Print Assumptions C06_global_broadcast_terminates.
+
+Theorem C06_global_broadcast_from_quiet_terminates : forall w who data,
+  queue w = [] -> exists k, queue (run k (submit w who AGB data)) = [].
+Proof. exact global_broadcast_from_quiet_terminates. Qed.
+Print Assumptions C06_global_broadcast_from_quiet_terminates.
+
 (* C06_announcements_terminate is FALSE of the code: on a ring of three routers with cold caches one remote
    unicast starts a relay of I-Am-Router-To-Network messages that never stops (the state of all nodes and the
    queue after 9 steps recurs every 3 steps); the payload itself is delivered exactly once. *)
@@ -173,6 +186,14 @@ Example C06_pending_example :
   snd (process_npdu n 0 [11] (LStation [2]) (i_am [9]))
   = [Tx 0 (LStation [11]) (mkNpdu (Some (DStation 9 [7])) None 255 None [16; 99; 1])].
 Proof. vm_compute. repeat split. repeat constructor; intros []. Qed.
+
+(* on the ring of three routers a global broadcast does terminate (5 frames); the stations on the other two networks each hear it twice — duplicates are possible on a cycle, non-termination is not *)
+Example C06_ring_global_broadcast_example :
+  let w := run 100 (submit ring3 3 AGB [16; 99; 9]) in
+  Forall gb_frame (queue (submit ring3 3 AGB [16; 99; 9])) /\ queue w = [] /\
+  map (fun o => match o with OUp who _ _ _ => who | _ => 0%nat end)
+      (filter (fun o => match o with OUp _ _ _ _ => true | _ => false end) (rev (trace w))) = [4; 5; 5; 4]%nat.
+Proof. vm_compute. repeat split. repeat constructor. Qed.
 
 (* a four-network tree (routers R0: nets 1,2,3; R1: nets 3,4) with correct caches: unicast, remote broadcast and
    global broadcast from the station on network 1 are delivered exactly once to exactly the right stations *)
